@@ -1,7 +1,6 @@
 """C04 - each needed call runs exactly once, nothing unneeded runs (premises D1-D4)."""
 from . import engine as E
 from . import runrules as R
-from .common import rule_pruning_preserves_paths
 
 
 def check(ctx):
@@ -23,7 +22,6 @@ def check(ctx):
     ctx.run(E.rule_one_callback_per_dequeue, "C04.D2", r)
     ctx.run(R.rule_prune_before_execute, "C04.D3", rr)
     from . import stalerules as S
-    from .common import rule_pruning_preserves_paths
     from .prunerules import rule_pruning_evaluated
     ctx.run(rule_pruning_evaluated, "C04.D3", rr)
     ctx.run(E.rule_callbacks_only_via_engine, "C04.D2", r, [rr.runcb, rr.stalecb])
